@@ -25,6 +25,11 @@ def getRatD (j : Json) (k : String) (d : Rat) : R Rat :=
   | .ok v => if v.isNull then pure d else asRat v
   | .error _ => pure d
 
+/-- a value OBSERVED on the real code (`impl_*` keys): absent when the check re-asks without the real output to
+tell "the real output is outside the model's value domain" from a malformed query -/
+def optFld {α} (j : Json) (k : String) (f : Json → R α) (d : α) : R α :=
+  if hasFld j k then fld j k >>= f else pure d
+
 def runC03 (op : String) (j : Json) : R Json := do
   let dur ← getNat j "dur"; let nch ← getNat j "nch"
   let A := mkRec dur nch
@@ -37,7 +42,7 @@ def runC03 (op : String) (j : Json) : R Json := do
   | "export" =>
     -- the exported file as it loads: windows of the biased recording times the unit factor, exactly
     let spikes ← getInts j "spikes"; let chans ← getIntss j "chans"
-    let ivs ← fld j "ivs" >>= asList asPairN
+    let ivs ← optFld j "impl_ivs" (asList asPairN) [(0, dur)]
     let nloc ← getNat j "nloc"
     let f ← getRatD j "factor" 1; let bias := (← getOptInt j "bias").getD 0
     let AQ := mkRecQ dur nch bias
@@ -50,7 +55,7 @@ def runC03 (op : String) (j : Json) : R Json := do
     -- export -> the three store files -> load -> lookup
     let ids ← getNats j "ids"; let samples ← getInts j "samples"; let chans ← getIntss j "chans"
     let query ← getNats j "query"; let chq ← getNats j "chq"
-    let ivs ← fld j "ivs" >>= asList asPairN
+    let ivs ← optFld j "impl_ivs" (asList asPairN) [(0, dur)]
     let nloc ← getNat j "nloc"
     let f ← getRatD j "factor" 1; let bias := (← getOptInt j "bias").getD 0
     let AQ := mkRecQ dur nch bias
@@ -64,10 +69,11 @@ def runC03 (op : String) (j : Json) : R Json := do
   | "subset" =>
     -- TemplateModel: save_spikes_subset_waveforms (after the selection) -> reload -> get_waveforms
     let samples ← getInts j "spike_samples"; let templates ← getNats j "spike_templates"
-    let orders ← getIntss j "orders"; let sel ← getNats j "sel"
-    let maxN ← getNat j "max_n"; let closest ← getNat j "closest"
+    let orders ← optFld j "impl_orders" (asList (asList asInt)) []
+    let sel ← optFld j "impl_sel" (asList asNat) []
+    let maxN ← getNat j "max_n"; let closest ← optFld j "impl_closest" asNat 0
     let query ← getNats j "query"; let chq ← getNats j "chq"
-    let ivs ← fld j "ivs" >>= asList asPairN
+    let ivs ← optFld j "impl_ivs" (asList asPairN) [(0, dur)]
     let f ← getRatD j "factor" 1
     let AQ := mkRecQ dur nch 0
     let scale : Rat → Rat := fun x => x * f
@@ -76,7 +82,8 @@ def runC03 (op : String) (j : Json) : R Json := do
     let store := loadSubset files
     let stored := query.all sel.contains
     pure (Json.mkObj [
-      ("model", jQ3 (getWaveforms store AQ samples query chq n)),
+      -- `null` = `get_waveforms` raises
+      ("model", jOpt jQ3 (getWaveformsE store AQ samples query chq n)),
       ("spec", jQ3 (if stored then
           query.map fun q => lookupSpec scale AQ (samples.getD q 0) n
             (templateNChannels true (orders.getD (templates.getD q 0) []) nc) chq
